@@ -295,6 +295,1223 @@ def check_C04(ctx):
             ctx.counts['parser_layer_agree'] += 1
 
 
+# ------------------------------------------------------------------ mapper layer (C05-C08)
+def is_anc(a, d):
+    """a is a proper ancestor of d (paths nearest-edge-first)"""
+    return len(a) < len(d) and tuple(d[len(d) - len(a):]) == tuple(a)
+
+
+def genomes_of(L):
+    """path -> genome object for every genome that exists"""
+    return dict(L.dump.genome_at)
+
+
+def lineage_pairs(ctx, L, limit):
+    gs = sorted(genomes_of(L).keys(), key=lambda p: (len(p), p))
+    pairs = [(a, d) for a in gs for d in gs if is_anc(a, d)]
+    if len(pairs) > limit:
+        pairs = ctx.rng.sample(pairs, limit)
+    return pairs
+
+
+def impl_hmap(L, m):
+    """canonical content of a HOGsMap / MapVertical"""
+    d = L.dump
+    return {'gain': sorted(d.ref(x) for x in m.GAIN),
+            'retained': sorted((d.ref(k), d.ref(v)) for k, v in m.RETAINED.items()),
+            'dup': sorted((d.ref(k), tuple(sorted(d.ref(v) for v in vs))) for k, vs in m.DUPLICATE.items()),
+            'loss': sorted(d.ref(x) for x in m.LOSS),
+            'ndup': m.number_duplication}
+
+
+def model_hmap(sx_):
+    """('hmap' (gain..) (retained..) (dup..) (loss..) (ndup n)) -> same canonical content"""
+    parts = {p[0]: p[1:] for p in sx_[1:]}
+    return {'gain': sorted(R(r) for r in parts['gain']),
+            'retained': sorted((R(a), R(b)) for a, b in parts['retained']),
+            'dup': sorted((R(a), tuple(sorted(R(b) for b in bs))) for a, bs in parts['dup']),
+            'loss': sorted(R(r) for r in parts['loss']),
+            'ndup': int(parts['ndup'][0])}
+
+
+def pred_c05(L, A, D, hm):
+    bad = []
+    d = L.dump
+    gA, gD = d.genome_at[A], d.genome_at[D]
+    desc = sorted(d.ref(x) for x in gD.genes)
+    anc = sorted(d.ref(x) for x in gA.genes)
+    placed = hm['gain'] + [v for _, v in hm['retained']] + [v for _, vs in hm['dup'] for v in vs]
+    if sorted(placed) != desc:
+        bad.append('descendant genome is not partitioned into gained/retained/duplicated')
+    keys = hm['loss'] + [k for k, _ in hm['retained']] + [k for k, _ in hm['dup']]
+    if sorted(keys) != anc:
+        bad.append('ancestral genome is not partitioned into lost/retained/duplicated')
+    if len(desc) != len(hm['gain']) + len(hm['retained']) + sum(len(vs) for _, vs in hm['dup']):
+        bad.append('descendant size equation fails')
+    if len(anc) != len(hm['loss']) + len(hm['retained']) + len(hm['dup']):
+        bad.append('ancestor size equation fails')
+    return bad
+
+
+def run_vertical(ctx, Ls, limit):
+    """for every case: impl HOGsMaps for sampled lineage pairs + the model's on the impl forest"""
+    plan = {}
+    for i, L in enumerate(Ls):
+        if L.impl[0] == 'ok':
+            plan[i] = lineage_pairs(ctx, L, limit)
+    reps = analyze(Ls, lambda L: [['wf']] + [['vertical', list(a), list(d)] for a, d in plan[Ls.index(L)]]
+                   if L.impl[0] == 'ok' else [])
+    return plan, reps
+
+
+def check_mapper(ctx, theorem, use_pred, n_quick, n_thorough):
+    Ls = loaded_stream(ctx, ctx.scale(n_quick, n_thorough))
+    idx = {id(L): i for i, L in enumerate(Ls)}
+    plan = {}
+    for i, L in enumerate(Ls):
+        if L.impl[0] == 'ok':
+            plan[i] = lineage_pairs(ctx, L, ctx.scale(40, 200))
+    reps = analyze(Ls, lambda L: ([['wf']] + [['vertical', list(a), list(d)] for a, d in plan[idx[id(L)]]])
+                   if L.impl[0] == 'ok' else [])
+    for i, L in enumerate(Ls):
+        if L.impl[0] != 'ok' or reps[i] is None:
+            continue
+        wf = str(reps[i][0]) == '1'
+        ctx.counts['wf_true' if wf else 'wf_false'] += 1
+        gs = genomes_of(L)
+        for (A, D), mrep in zip(plan[i], reps[i][1:]):
+            ctx.counts['pairs'] += 1
+            # both argument orders
+            order = (gs[A], gs[D]) if ctx.rng.random() < 0.5 else (gs[D], gs[A])
+            try:
+                vm = L.ham.compare_genomes_vertically(*order)
+            except Exception as e:  # noqa
+                ctx.violation('vertical comparison of a lineage pair raised %s' % type(e).__name__,
+                              {'case': case_json(L.case), 'pair': [A, D], 'error': repr(e)[:300]})
+                continue
+            hm = impl_hmap(L, vm.map)
+            bad = []
+            if L.dump.path[vm.ancestor.taxon] != A or L.dump.path[vm.descendant.taxon] != D:
+                bad.append('ancestor/descendant orientation is wrong')
+            if wf and L.case.consistent:
+                bad.extend(use_pred(L, A, D, hm, vm))
+            if bad:
+                ctx.violation(bad[0], {'case': case_json(L.case), 'pair': [A, D], 'failures': bad, 'map': repr(hm)[:1500]})
+                continue
+            if mrep[0] != 'ok':
+                ctx.violation('mapper layer: model rejects a lineage pair; %s no longer tied to the code' % theorem,
+                              {'case': case_json(L.case), 'pair': [A, D], 'layer': 'mapper', 'theorem': theorem},
+                              no_input=True)
+                continue
+            mm = model_hmap(mrep[1][2])
+            if mm != hm:
+                ctx.counts['mapper_layer_disagreements'] += 1
+                ctx.violation('mapper layer: model and implementation disagree; %s no longer tied to the code' % theorem,
+                              {'case': case_json(L.case), 'pair': [A, D], 'layer': 'mapper', 'theorem': theorem,
+                               'impl': repr(hm)[:1500], 'model': repr(mm)[:1500]}, no_input=True)
+            else:
+                ctx.counts['mapper_layer_agree'] += 1
+
+
+def check_C05(ctx):
+    check_mapper(ctx, 'props/C05.v: c05_partition', lambda L, A, D, hm, vm: pred_c05(L, A, D, hm), 300, 4000)
+
+
+# ---- C06: independent classification, computed downward on the dumped forest
+def classify(L, A, D):
+    """for each node at D: ('gain',) or (ancestor ref at A, duplicated?) ; and the set of lost ancestors"""
+    d = L.dump
+    res = {}
+    anc_nodes = []
+
+    def walk(h, above, flags):
+        # above: ref of the ancestor at A on the current path (or None); flags: any flag since (strictly below A-node)
+        p = P(h[2])
+        r = R(['g', h[1]]) if h[0] == 'G' else ('h', int(h[1]))
+        if p == D:
+            res[r] = ('gain',) if above is None else (above, flags)
+        if h[0] == 'H':
+            here = above
+            fl = flags
+            if p == A:
+                anc_nodes.append(r)
+                here = r
+                fl = False
+            for f, c in h[4]:
+                walk(c, here, (fl or bool(f)) if here is not None else False)
+    for h in d.top_sx + d.single_sx:
+        walk(h, None, False)
+    return res, anc_nodes
+
+
+def pred_c06(L, A, D, hm, vm):
+    bad = []
+    res, anc_nodes = classify(L, A, D)
+    gain = sorted(r for r, v in res.items() if v == ('gain',))
+    ret = sorted((v[0], r) for r, v in res.items() if v != ('gain',) and not v[1])
+    dup = {}
+    for r, v in res.items():
+        if v != ('gain',) and v[1]:
+            dup.setdefault(v[0], []).append(r)
+    dup = sorted((k, tuple(sorted(vs))) for k, vs in dup.items())
+    used = set(v[0] for v in res.values() if v != ('gain',))
+    loss = sorted(r for r in anc_nodes if r not in used)
+    if gain != hm['gain']:
+        bad.append('gained set differs from "no ancestor in the ancestral genome"')
+    if ret != hm['retained']:
+        bad.append('retained differs from "unique ancestor, no duplication in between"')
+    if dup != hm['dup']:
+        bad.append('duplicated differs from "ancestor with a duplication in between"')
+    if loss != hm['loss']:
+        bad.append('lost differs from "no descendant in the descendant genome"')
+    want = sum(len(vs) - 1 for _, vs in hm['dup'])
+    if hm['ndup'] != want:
+        bad.append('number of duplication events is not the sum of (copies - 1)')
+    try:
+        got = vm.get_number_duplications()
+        if got != want:
+            bad.append('public accessor returns %r, expected %r' % (got, want))
+    except Exception as e:  # noqa
+        bad.append('public accessor get_number_duplications() raises %s' % type(e).__name__)
+    return bad
+
+
+def check_C06(ctx):
+    check_mapper(ctx, 'props/C06.v: c06_meaning', pred_c06, 300, 4000)
+
+
+# ---- C07
+def lineage_triples(ctx, L, limit):
+    gs = sorted(genomes_of(L).keys(), key=lambda p: (len(p), p))
+    tr = [(a, b, c) for a in gs for b in gs for c in gs if is_anc(a, b) and is_anc(b, c)]
+    if len(tr) > limit:
+        tr = ctx.rng.sample(tr, limit)
+    return tr
+
+
+def impl_upmap(L, ga, gd):
+    vm = L.ham.compare_genomes_vertically(ga, gd)
+    d = L.dump
+    return {d.ref(hy): (None if ho is None else d.ref(ho), bool(par)) for hy, (ho, par) in vm.map.upMap.items()}
+
+
+def check_C07(ctx):
+    Ls = loaded_stream(ctx, ctx.scale(300, 4000))
+    idx = {id(L): i for i, L in enumerate(Ls)}
+    plan = {}
+    for i, L in enumerate(Ls):
+        if L.impl[0] == 'ok':
+            plan[i] = lineage_triples(ctx, L, ctx.scale(25, 150))
+    def cmds(L):
+        if L.impl[0] != 'ok':
+            return []
+        out = [['wf']]
+        for a, b, c in plan[idx[id(L)]]:
+            out += [['upmap', list(a), list(c)], ['upmap', list(b), list(c)], ['upmap', list(a), list(b)]]
+        return out
+    reps = analyze(Ls, cmds)
+    for i, L in enumerate(Ls):
+        if L.impl[0] != 'ok' or reps[i] is None:
+            continue
+        wf = str(reps[i][0]) == '1'
+        gs = genomes_of(L)
+        for k, (a, b, c) in enumerate(plan[i]):
+            ctx.counts['triples'] += 1
+            try:
+                uac, ubc, uab = impl_upmap(L, gs[a], gs[c]), impl_upmap(L, gs[b], gs[c]), impl_upmap(L, gs[a], gs[b])
+            except Exception as e:  # noqa
+                ctx.violation('comparison raised %s' % type(e).__name__, {'case': case_json(L.case), 'triple': [a, b, c]})
+                continue
+            bad = []
+            if wf and L.case.consistent:
+                for hy, (x, fl) in uac.items():
+                    y, f1 = ubc.get(hy, (None, False))
+                    if y is None:
+                        if x is not None:
+                            bad.append('%s has an ancestor in A but none in B' % (hy,))
+                        continue
+                    x2, f2 = uab.get(y, (None, False))
+                    if x != x2:
+                        bad.append('%s: ancestor over the long branch differs from the chained one' % (hy,))
+                    elif x is not None and fl != (f1 or f2):
+                        bad.append('%s: duplication flag over the long branch differs from the chained one' % (hy,))
+            if bad:
+                ctx.violation(bad[0], {'case': case_json(L.case), 'triple': [a, b, c], 'failures': bad[:10]})
+                continue
+            ok = True
+            for u, rep in zip((uac, ubc, uab), reps[i][1 + 3 * k: 4 + 3 * k]):
+                mu = {R(e[0]): ((R(e[1][0]) if e[1] else None), str(e[2]) == '1') for e in rep}
+                if mu != u:
+                    ok = False
+            if not ok:
+                ctx.violation('mapper layer (up-map): model and implementation disagree; props/C07.v: c07_compose no longer tied to the code',
+                              {'case': case_json(L.case), 'triple': [a, b, c], 'layer': 'mapper'}, no_input=True)
+            else:
+                ctx.counts['mapper_layer_agree'] += 1
+
+
+# ---- C08
+def check_C08(ctx):
+    Ls = loaded_stream(ctx, ctx.scale(250, 3000))
+    idx = {id(L): i for i, L in enumerate(Ls)}
+    plan = {}
+    for i, L in enumerate(Ls):
+        if L.impl[0] == 'ok':
+            gs = sorted(genomes_of(L).keys(), key=lambda p: (len(p), p))
+            pairs = [(a, b) for x, a in enumerate(gs) for b in gs[x + 1:]]
+            lim = ctx.scale(30, 150)
+            if len(pairs) > lim:
+                pairs = ctx.rng.sample(pairs, lim)
+            plan[i] = pairs
+    reps = analyze(Ls, lambda L: ([['wf']] + [['lateral', list(a), list(b)] for a, b in plan[idx[id(L)]]])
+                   if L.impl[0] == 'ok' else [])
+    for i, L in enumerate(Ls):
+        if L.impl[0] != 'ok' or reps[i] is None:
+            continue
+        d = L.dump
+        for (p1, p2), rep in zip(plan[i], reps[i][1:]):
+            ctx.counts['pairs'] += 1
+            gs = genomes_of(L)
+            g1, g2 = gs[p1], gs[p2]
+            bad = []
+            lineage = is_anc(p1, p2) or is_anc(p2, p1)
+            # vertical: order independence / TypeError off-lineage
+            outs = []
+            for a, b in ((g1, g2), (g2, g1)):
+                try:
+                    vm = L.ham.compare_genomes_vertically(a, b)
+                    outs.append(('ok', impl_hmap(L, vm.map), d.path[vm.ancestor.taxon]))
+                except TypeError:
+                    outs.append(('TypeError',))
+                except Exception as e:  # noqa
+                    outs.append((type(e).__name__,))
+            if lineage:
+                if outs[0][0] != 'ok' or outs[0] != outs[1]:
+                    bad.append('vertical comparison depends on argument order or fails on a lineage pair: %s' % ([o[0] for o in outs],))
+            elif outs[0][0] != 'TypeError' or outs[1][0] != 'TypeError':
+                bad.append('vertical comparison of genomes not on one lineage does not raise TypeError: %s' % ([o[0] for o in outs],))
+            # lateral, both orders
+            lats = []
+            for a, b in ((g1, g2), (g2, g1)):
+                try:
+                    lm = L.ham.compare_genomes_lateral(a, b)
+                    anc = d.path[lm.ancestor.taxon]
+                    lat = {'anc': anc,
+                           'loss': sorted((d.ref(k), tuple(sorted(d.path[g.taxon] for g in v))) for k, v in lm.get_lost().items()),
+                           'gain': sorted((d.path[g.taxon], tuple(sorted(d.ref(x) for x in v))) for g, v in lm.get_gained().items()),
+                           'retained': sorted((d.ref(k), tuple(sorted((d.path[g.taxon], d.ref(x)) for g, x in v.items())))
+                                              for k, v in lm.get_retained().items()),
+                           'dup': sorted((d.ref(k), tuple(sorted((d.path[g.taxon], tuple(sorted(d.ref(x) for x in xs)))
+                                                                 for g, xs in v.items())))
+                                         for k, v in lm.get_duplicated().items()),
+                           'desc': sorted(d.path[g.taxon] for g in lm.descendants)}
+                    lats.append(lat)
+                except Exception as e:  # noqa
+                    bad.append('lateral comparison raised %s' % type(e).__name__)
+            if len(lats) == 2 and lats[0] != lats[1]:
+                bad.append('lateral comparison depends on argument order')
+            if lats and not bad:
+                lat = lats[0]
+                mr = core.gen.mrca_paths([p1, p2])
+                if lat['anc'] != mr:
+                    bad.append('lateral reference genome is not the most recent common ancestor')
+                if lat['desc'] != sorted(p for p in (p1, p2) if p != mr):
+                    bad.append('lateral compares other genomes than the pair minus the reference')
+                gs2 = genomes_of(impl_refresh(L))
+                for g in lat['desc']:
+                    vm = L.ham.compare_genomes_vertically(gs2[mr], gs2[g])
+                    hm = impl_hmap(L, vm.map)
+                    if sorted(k for k, v in lat['loss'] if g in v) != hm['loss']:
+                        bad.append('lateral lost set of a genome differs from its vertical comparison')
+                    if [list(v) for gg, v in lat['gain'] if gg == g] != [hm['gain']]:
+                        bad.append('lateral gained set of a genome differs from its vertical comparison')
+                    if sorted((k, x) for k, v in lat['retained'] for gg, x in v if gg == g) != hm['retained']:
+                        bad.append('lateral retained set of a genome differs from its vertical comparison')
+                    if sorted((k, xs) for k, v in lat['dup'] for gg, xs in v if gg == g) != hm['dup']:
+                        bad.append('lateral duplicated set of a genome differs from its vertical comparison')
+            if bad:
+                ctx.violation(bad[0], {'case': case_json(L.case), 'pair': [p1, p2], 'failures': bad[:10]})
+                continue
+            # correspondence with the model's lateral
+            m_anc = P(rep[0])
+            m_maps = sorted((P(g), model_hmap(hm)) for g, hm in rep[1])
+            i_maps = []
+            gs2 = genomes_of(impl_refresh(L))
+            for g in lats[0]['desc']:
+                i_maps.append((g, impl_hmap(L, L.ham.compare_genomes_vertically(gs2[m_anc], gs2[g]).map)))
+            if m_anc != lats[0]['anc'] or m_maps != sorted(i_maps):
+                ctx.violation('mapper layer (lateral): model and implementation disagree; props/C08.v: c08_lateral no longer tied to the code',
+                              {'case': case_json(L.case), 'pair': [p1, p2], 'layer': 'mapper'}, no_input=True)
+            else:
+                ctx.counts['mapper_layer_agree'] += 1
+
+
+def impl_refresh(L):
+    """genomes may have been created on demand: re-read the node -> genome table"""
+    L.dump._genomes()
+    return L
+
+
+# ------------------------------------------------------------------ profile layer (C09, C10)
+FEATS = ('retained', 'dupl', 'gain', 'lost', 'duplication', 'nbr_events')
+
+
+def treemap_table(tm):
+    """path -> (nbr_genes, {feature: value})"""
+    out = {}
+    for n in tm.traverse():
+        out[impl.node_path(n)] = (n.nbr_genes, {f: getattr(n, f, None) for f in FEATS}, n.name)
+    return out
+
+
+def html_numbers(text):
+    m = re.search(r"treeData = '(.*)';", text)
+    data = json.loads(m.group(1))
+    out = {}
+
+    def go(nd, path):
+        ev = nd['evolutionaryEvents']
+        out[path] = (nd['numberGenes'], None if ev is False else
+                     {'retained': ev['retained'], 'dupl': ev['duplicated'], 'gain': ev['gained'], 'lost': ev['lost'],
+                      'duplication': ev['duplication'], 'nbr_events': nd['numberEvents']}, nd['name'])
+        for k, c in enumerate(nd.get('children', [])):
+            go(c, (k,) + path)
+    go(data, ())
+    return out
+
+
+def check_C09(ctx):
+    Ls = loaded_stream(ctx, ctx.scale(300, 4000))
+    reps = analyze(Ls, lambda L: [['wf'], ['profile_full']] if L.impl[0] == 'ok' else [])
+    work = os.path.join(core.VERIF, '.work')
+    os.makedirs(work, exist_ok=True)
+    for L, rep in zip(Ls, reps):
+        if L.impl[0] != 'ok' or rep is None:
+            continue
+        ctx.counts['loaded'] += 1
+        root_has_genome = () in L.dump.genome_at
+        ctx.dist['root_without_family' if not root_has_genome else 'root_with_family'] += 1
+        try:
+            tp = L.ham.create_tree_profile()
+        except Exception as e:  # noqa
+            ctx.violation('whole-dataset tree profile cannot be built: %s' % type(e).__name__,
+                          {'case': case_json(L.case), 'error': repr(e)[:300]},
+                          finding_key='F4-root-without-genome' if not root_has_genome else None)
+            continue
+        tab = treemap_table(tp.treemap)
+        bad = []
+        wf = str(rep[0]) == '1'
+        byp = {n.path: n for n in L.case.named_tree().nodes()}
+        if set(tab.keys()) != set(byp.keys()):
+            bad.append('profile tree has other nodes than the species tree')
+        for p, (nbr, f, name) in tab.items():
+            if p == ():
+                if any(f[k] is not None for k in FEATS):
+                    bad.append('root carries branch features')
+                continue
+            if any(f[k] is None for k in FEATS):
+                bad.append('non-root node lacks a feature')
+                continue
+            up = tab.get(p[1:])
+            if wf and L.case.consistent and up is not None:
+                if nbr != up[0] + f['gain'] + f['duplication'] - f['lost']:
+                    bad.append('genes(child) != genes(parent) + gained + duplications - lost at %s' % name)
+                if nbr != f['retained'] + f['dupl'] + f['gain']:
+                    bad.append('genes(child) != retained + duplicated + gained at %s' % name)
+            if f['nbr_events'] != f['duplication'] + f['lost'] + f['gain']:
+                bad.append('nbr_events is not duplication + lost + gain at %s' % name)
+        # the numbers are those of the vertical comparison with the parent
+        L.dump._genomes()
+        gs = L.dump.genome_at
+        for p, (nbr, f, name) in tab.items():
+            if p == () or p not in gs or p[1:] not in gs:
+                continue
+            if nbr != len(gs[p].genes):
+                bad.append('nbr_genes is not the size of the genome at %s' % name)
+            try:
+                hm = impl_hmap(L, L.ham.compare_genomes_vertically(gs[p[1:]], gs[p]).map)
+                want = {'retained': len(hm['retained']), 'dupl': sum(len(v) for _, v in hm['dup']), 'gain': len(hm['gain']),
+                        'lost': len(hm['loss']), 'duplication': hm['ndup']}
+                for k, v in want.items():
+                    if f[k] != v:
+                        bad.append('%s at %s is not the count of the vertical comparison with the parent' % (k, name))
+            except Exception as e:  # noqa
+                bad.append('vertical comparison with the parent raised %s' % type(e).__name__)
+        # HTML export embeds exactly these numbers
+        fn = os.path.join(work, 'tp_%d.html' % os.getpid())
+        try:
+            tp.export_as_html(fn)
+            with open(fn) as fh:
+                hn = html_numbers(fh.read())
+            os.remove(fn)
+            for p, (nbr, f, name) in tab.items():
+                h = hn.get(p)
+                if h is None or h[0] != nbr or h[2] != name or (p != () and any(h[1][k] != f[k] for k in FEATS)) \
+                        or (p == () and h[1] is not None):
+                    bad.append('HTML export does not embed the profile numbers at %s' % name)
+        except Exception as e:  # noqa
+            bad.append('HTML export failed: %s' % type(e).__name__)
+        if bad:
+            ctx.violation(bad[0], {'case': case_json(L.case), 'failures': bad[:10]})
+            continue
+        # correspondence
+        if rep[1][0] != 'ok':
+            ctx.violation('profile layer: model rejects; props/C09.v no longer tied to the code',
+                          {'case': case_json(L.case), 'layer': 'profile', 'model': repr(rep[1])[:300]}, no_input=True)
+            continue
+        mt = {}
+        for p, nbr, f in rep[1][1]:
+            mt[P(p)] = (int(nbr), None if not f else dict(zip(('retained', 'dupl', 'gain', 'lost', 'duplication', 'nbr_events'),
+                                                               (int(x) for x in f[0]))))
+        it = {p: (nbr, None if p == () else f) for p, (nbr, f, _) in tab.items()}
+        if mt != it:
+            ctx.violation('profile layer: model and implementation disagree; props/C09.v: c09_balance no longer tied to the code',
+                          {'case': case_json(L.case), 'layer': 'profile', 'impl': repr(sorted(it.items()))[:1500],
+                           'model': repr(sorted(mt.items()))[:1500]}, no_input=True)
+        else:
+            ctx.counts['profile_layer_agree'] += 1
+
+
+HFEATS = ('retained', 'dupl', 'lost', 'duplication', 'nbr_events')
+
+
+def check_C10(ctx):
+    Ls = loaded_stream(ctx, ctx.scale(250, 3000))
+    def cmds(L):
+        if L.impl[0] != 'ok':
+            return []
+        return [['wf'], ['profile_full']] + [['profile_hog', L.dump.oid_of(h)] for _, h in L.dump.tops]
+    reps = analyze(Ls, cmds)
+    for L, rep in zip(Ls, reps):
+        if L.impl[0] != 'ok' or rep is None:
+            continue
+        d = L.dump
+        wf = str(rep[0]) == '1'
+        bad = []
+        fam_tabs = []
+        for (hid, h), mrep in zip(d.tops, rep[2:]):
+            ctx.counts['families'] += 1
+            try:
+                tp = L.ham.create_tree_profile(hog=h)
+            except Exception as e:  # noqa
+                bad.append('per-family profile of %s cannot be built: %s' % (hid, type(e).__name__))
+                continue
+            root = d.path[h.genome.taxon]
+            tab = {}
+            for n in tp.treemap.traverse():
+                p = impl.node_path(n) + root
+                tab[p] = (n.nbr_genes, {f: getattr(n, f, None) for f in HFEATS})
+            fam_tabs.append((root, tab))
+            # meaning, computed independently on the dumped family
+            if wf and L.case.consistent:
+                nodes = {}
+                def collect(x, parent, fl):
+                    nodes.setdefault(P(x[2]), []).append((x, parent, fl))
+                    if x[0] == 'H':
+                        for f, c in x[4]:
+                            collect(c, x, bool(f))
+                collect(d.top_sx[d.tops.index((hid, h))], None, False)
+                for p, (nbr, f) in tab.items():
+                    here = nodes.get(p, [])
+                    if nbr != len(here):
+                        bad.append('family %s: nbr_genes at a node is not the number of family members living there' % hid)
+                    if p == root:
+                        continue
+                    dupl = sum(1 for _, _, fl in here if fl)
+                    if f['dupl'] != dupl or f['retained'] != len(here) - dupl:
+                        bad.append('family %s: duplicated/retained split is wrong' % hid)
+                    ups = nodes.get(p[1:], [])
+                    lost = sum(1 for x, _, _ in ups if not any(P(c[2]) == p for _, c in x[4]))
+                    if f['lost'] != lost:
+                        bad.append('family %s: lost is not "parent-level members without descendant here"' % hid)
+            # correspondence
+            if not mrep or mrep == 'nohog':
+                ctx.violation('profile layer: model cannot profile a family', {'case': case_json(L.case), 'layer': 'profile'}, no_input=True)
+                continue
+            mt = {P(p): (int(nbr), None if not f else dict(zip(HFEATS, (int(x) for x in f[0])))) for p, nbr, f in mrep[0]}
+            it = {p: (nbr, None if p == root else f) for p, (nbr, f) in tab.items()}
+            if mt != it:
+                ctx.violation('profile layer (family): model and implementation disagree; props/C10.v no longer tied to the code',
+                              {'case': case_json(L.case), 'layer': 'profile', 'family': hid,
+                               'impl': repr(sorted(it.items()))[:1200], 'model': repr(sorted(mt.items()))[:1200]}, no_input=True)
+            else:
+                ctx.counts['profile_layer_agree'] += 1
+        # additivity against the whole-dataset profile
+        if not bad and wf and L.case.consistent:
+            try:
+                full = treemap_table(L.ham.create_tree_profile().treemap)
+            except Exception as e:  # noqa
+                full = None
+                if () in d.genome_at:
+                    bad.append('whole-dataset profile failed: %s' % type(e).__name__)
+            if full is not None:
+                singles = Counter(P(x[2]) for x in d.single_sx)
+                roots = Counter(r for r, _ in fam_tabs)
+                for p, (nbr, f, name) in full.items():
+                    if p == ():
+                        continue
+                    for k in ('retained', 'dupl', 'lost', 'duplication'):
+                        tot = sum((tab[p][1][k] or 0) for r, tab in fam_tabs if p in tab and p != r)
+                        if f[k] != tot:
+                            bad.append('%s at %s: whole-dataset %s != sum over families %s' % (k, name, f[k], tot))
+                    if f['gain'] != singles[p] + roots[p]:
+                        bad.append('gain at %s is not singletons + family roots' % name)
+                    if nbr != sum(tab[p][0] for r, tab in fam_tabs if p in tab) + singles[p]:
+                        bad.append('nbr_genes at %s is not the sum over families + singletons' % name)
+        if bad:
+            ctx.violation(bad[0], {'case': case_json(L.case), 'failures': bad[:10]})
+
+
+# ------------------------------------------------------------------ navigation layer (C16)
+def forest_index(d):
+    """oid/gene -> (sx node, family root sx, object)"""
+    idx = {}
+    def go(x, root):
+        r = ('g', str(x[1])) if x[0] == 'G' else ('h', int(x[1]))
+        idx[r] = (x, root)
+        if x[0] == 'H':
+            for _, c in x[4]:
+                go(c, root)
+    for h in d.top_sx + d.single_sx:
+        go(h, h)
+    return idx
+
+
+def sx_genes(x):
+    if x[0] == 'G':
+        return [str(x[1])]
+    return [g for _, c in x[4] for g in sx_genes(c)]
+
+
+def sx_nodes(x):
+    out = [x]
+    if x[0] == 'H':
+        for _, c in x[4]:
+            out.extend(sx_nodes(c))
+    return out
+
+
+def check_C16(ctx):
+    Ls = loaded_stream(ctx, ctx.scale(250, 3000))
+    plan = {}
+    def cmds(L):
+        if L.impl[0] != 'ok':
+            return []
+        d = L.dump
+        hogs = sorted(d.obj.keys())
+        if len(hogs) > 12:
+            hogs = ctx.rng.sample(hogs, 12)
+        idx = forest_index(d)
+        members = sorted(idx.keys())
+        gs = sorted(d.genome_at.keys())
+        qs = [(ctx.rng.choice(members), ctx.rng.choice(gs)) for _ in range(ctx.scale(12, 40))] if members and gs else []
+        # bias: queries inside the member's own family lineage
+        for _ in range(ctx.scale(8, 30)):
+            if members:
+                m = ctx.rng.choice(members)
+                fam = [P(x[2]) for x in sx_nodes(idx[m][1])]
+                qs.append((m, ctx.rng.choice(fam)))
+        ags = [p for p in gs if p in d.internals]
+        plan[id(L)] = (hogs, qs, ags)
+        return ([['wf']] + [['nav', o] for o in hogs]
+                + [['top_of', ['g', Q(m[1])] if m[0] == 'g' else ['h', m[1]]] for m, _ in qs]
+                + [['at_level', ['g', Q(m[1])] if m[0] == 'g' else ['h', m[1]], list(g)] for m, g in qs]
+                + [['clustering', list(p)] for p in ags])
+    reps = analyze(Ls, cmds)
+    for L, rep in zip(Ls, reps):
+        if L.impl[0] != 'ok' or rep is None:
+            continue
+        d = L.dump
+        hogs, qs, ags = plan[id(L)]
+        idx = forest_index(d)
+        wf = str(rep[0]) == '1'
+        bad = []
+        agree = True
+        k = 1
+        for o in hogs:
+            h = d.obj[o]
+            x = idx[('h', o)][0]
+            genes = [g.unique_id for g in h.get_all_descendant_genes()]
+            bysp = {d.path[sp.taxon]: [g.unique_id for g in gl] for sp, gl in h.get_all_descendant_genes_clustered_by_species().items()}
+            hl = [d.ref(y) for y in h.get_all_descendant_hogs()]
+            lv = [d.path[g.taxon] for g in h.get_all_descendant_hog_levels()]
+            ctx.counts['hogs'] += 1
+            if sorted(genes) != sorted(sx_genes(x)) or len(set(genes)) != len(genes):
+                bad.append('descendant genes of a HOG are not its subtree genes, each once')
+            if sorted(g for gl in bysp.values() for g in gl) != sorted(genes):
+                bad.append('per-species clustering does not cover the descendant genes exactly')
+            for p, gl in bysp.items():
+                if any(d.path[L.ham.extant_gene_map[g].genome.taxon] != p for g in gl):
+                    bad.append('per-species clustering lists a gene under another species')
+            want_h = [(('h', int(y[1]))) for y in sx_nodes(x) if y[0] == 'H']
+            if sorted(hl) != sorted(want_h) or len(set(hl)) != len(hl):
+                bad.append('descendant HOG list is not the subtree HOGs, each once')
+            if lv != [d.path[d.obj[r[1]].genome.taxon] for r in hl]:
+                bad.append('level list does not match the descendant HOG list')
+            m = rep[k]
+            k += 1
+            mm = (sorted(R(r)[1] for r in m[0]), sorted((P(p), tuple(sorted(str(g) for g in gl))) for p, gl in m[1]),
+                  sorted(R(r) for r in m[2]), sorted(P(p) for p in m[3]))
+            ii = (sorted(genes), sorted((p, tuple(sorted(gl))) for p, gl in bysp.items()), sorted(hl), sorted(lv))
+            if mm != ii:
+                agree = False
+        objs = {}
+        for r in idx:
+            objs[r] = L.ham.extant_gene_map[r[1]] if r[0] == 'g' else d.obj[r[1]]
+        tops = []
+        for m, g in qs:
+            root = idx[m][1]
+            rr = ('g', str(root[1])) if root[0] == 'G' else ('h', int(root[1]))
+            t = objs[m].get_top_level_hog()
+            tops.append(d.ref(t))
+            if d.ref(t) != rr:
+                bad.append('a member reports another top-level HOG than its family root')
+            mt = rep[k]
+            k += 1
+            if not mt or R(mt[0]) != d.ref(t):
+                agree = False
+        for m, g in qs:
+            ctx.counts['at_level_queries'] += 1
+            root = idx[m][1]
+            want = sorted((('g', str(y[1])) if y[0] == 'G' else ('h', int(y[1]))) for y in sx_nodes(root) if P(y[2]) == g)
+            try:
+                got = ('ok', sorted(d.ref(y) for y in objs[m].get_at_level(d.genome_at[g])))
+            except KeyError:
+                got = ('KeyError',)
+            except Exception as e:  # noqa
+                got = (type(e).__name__,)
+            if root[0] == 'G':
+                exp = None          # a singleton gene: outside the statement (no family)
+            elif not want or m in want:
+                exp = ('KeyError',)
+            else:
+                exp = ('ok', want)
+            if exp is not None and wf and got != exp:
+                bad.append('get_at_level(%s, %s) returns %s, expected %s' % (m, g, got, exp))
+            mr = rep[k]
+            k += 1
+            mg = ('ok', sorted(R(r) for r in mr[1])) if mr[0] == 'ok' else (str(mr[1]),)
+            if mg != got:
+                agree = False
+        seen = {}
+        for p in ags:
+            ac = d.genome_at[p].get_ancestral_clustering()
+            cl = sorted((d.ref(hh), tuple(sorted(g.unique_id for g in gl))) for hh, gl in ac.items())
+            for hh, gl in ac.items():
+                if sorted(g.unique_id for g in gl) != sorted(g.unique_id for g in hh.get_all_descendant_genes()):
+                    bad.append('ancestral clustering differs from the HOG\'s descendant genes')
+            allg = [g for _, gl in cl for g in gl]
+            if wf and len(set(allg)) != len(allg):
+                bad.append('ancestral clustering of one genome is not pairwise disjoint')
+            if sorted(r for r, _ in cl) != sorted(d.ref(x) for x in d.genome_at[p].genes):
+                bad.append('ancestral clustering does not have one entry per HOG of the genome')
+            mc = sorted((R(r), tuple(sorted(str(g) for g in gl))) for r, gl in rep[k])
+            k += 1
+            if mc != cl:
+                agree = False
+        if bad:
+            ctx.violation(bad[0], {'case': case_json(L.case), 'failures': bad[:10]})
+        elif not agree:
+            ctx.violation('navigation layer: model and implementation disagree; props/C16.v no longer tied to the code',
+                          {'case': case_json(L.case), 'layer': 'navigation'}, no_input=True)
+        else:
+            ctx.counts['navigation_layer_agree'] += 1
+
+
+# ------------------------------------------------------------------ taxonomy (C18)
+def impl_taxonomy(nw, use_internal):
+    try:
+        tx = pyham.taxonomy.Taxonomy(nw, use_internal_name=use_internal)
+    except Exception as e:  # noqa
+        return ('err', type(e).__name__)
+    return ('ok', tx)
+
+
+def ete_tree_sx(t):
+    return [t.name] + [ete_tree_sx(c) for c in t.children]
+
+
+def sx_tree_plain(x):
+    return [str(x[0])] + [sx_tree_plain(c) for c in x[1:]]
+
+
+def check_C18(ctx):
+    import ete3
+    n = ctx.scale(400, 5000)
+    trees = []
+    for i in range(n):
+        r = ctx.rng.random()
+        nl = ctx.rng.randint(1, 4) if r < 0.2 else ctx.rng.randint(2, ctx.scale(12, 40))
+        t = gen.gen_tree(ctx.rng, nl, max_arity=ctx.rng.choice([2, 3, 4, 5]), unary=ctx.rng.random() < 0.25,
+                         fancy_names=ctx.rng.random() < 0.5,
+                         shape=ctx.rng.choice([None, None, None, 'caterpillar', 'balanced', 'star']))
+        mode = ctx.rng.choice(['names', 'names', 'nonames', 'lengths', 'supports', 'dupleaf', 'dupinternal'])
+        ui = ctx.rng.random() < 0.5
+        if mode == 'dupleaf' and len(t.leaves()) >= 2:
+            ls = t.leaves()
+            ls[ctx.rng.randrange(1, len(ls))].name = ls[0].name
+        if mode == 'dupinternal':
+            ints = [x for x in t.nodes() if x.kids]
+            if len(ints) >= 2:
+                ints[-1].name = ints[0].name
+        trees.append((t, mode, ui))
+    reqs = []
+    for t, mode, ui in trees:
+        if mode == 'nonames':
+            mt = gen.T('', [])  # placeholder, replaced below
+            def strip(x):
+                return gen.T(x.name if not x.kids else '', [strip(c) for c in x.kids])
+            mt = strip(t)
+        elif mode == 'supports':
+            mt = None
+        else:
+            mt = t
+        reqs.append((t, mode, ui, mt))
+    # supports: the Newick reader takes the numbers for names; build the model tree from the text as ete3 names it
+    out_reqs = []
+    texts = []
+    for t, mode, ui, mt in reqs:
+        lengths = ctx.rng if mode in ('lengths', 'supports') else None
+        if mode == 'supports':
+            nw = gen.newick(t, internal=False, lengths=None, supports=True)
+            def sup(x, root=True):
+                return gen.T(x.name if not x.kids else ('' if root else '90'), [sup(c, False) for c in x.kids])
+            mt = sup(t)
+        elif mode == 'nonames':
+            nw = gen.newick(t, internal=False)
+        else:
+            nw = gen.newick(t, internal=True, lengths=lengths)
+        texts.append(nw)
+        out_reqs.append(['taxonomy', ui, mt.set_paths().sx()])
+    reps = model.run_requests(out_reqs)
+    for (t, mode, ui, _), nw, rep in zip(reqs, texts, reps):
+        ctx.counts['trees'] += 1
+        ctx.counts['cases'] += 1
+        ctx.dist['mode=' + mode] += 1
+        ctx.dist['leaves=%d' % min(len(t.leaves()), 12)] += 1
+        ctx.distinct.add(nw + str(ui))
+        if len(ctx.samples) < 3:
+            ctx.samples.append({'newick': nw, 'use_internal_name': ui, 'mode': mode})
+        r = impl_taxonomy(nw, ui)
+        payload = {'newick': nw, 'use_internal': ui, 'mode': mode}
+        leafnames = [l.name for l in t.leaves()]
+        dup_leaves = len(set(leafnames)) != len(leafnames)
+        if dup_leaves:
+            if r != ('err', 'KeyError'):
+                ctx.violation('tree with duplicate leaf names is not rejected with KeyError', payload)
+            elif rep[0] != 'err':
+                ctx.violation('taxonomy layer: model accepts duplicate leaves', payload, no_input=True)
+            continue
+        if r[0] == 'err':
+            if rep[0] == 'err' and r[1] == str(rep[1]):
+                ctx.counts['both_reject'] += 1
+            else:
+                ctx.violation('taxonomy layer: implementation rejects (%s), model %s; props/C18.v no longer tied to the code'
+                              % (r[1], rep[0]), payload, no_input=True)
+            continue
+        if rep[0] != 'ok':
+            ctx.violation('taxonomy layer: model rejects (%s) a tree the implementation accepts' % (rep[1],), payload, no_input=True)
+            continue
+        tx = r[1]
+        bad = []
+        # names
+        want_names = {}
+        for nd in t.nodes():
+            if not nd.kids:
+                want_names[nd.path] = nd.name
+            elif ui and mode in ('names', 'lengths', 'dupinternal', 'dupleaf'):
+                want_names[nd.path] = nd.name
+            elif not ui:
+                want_names[nd.path] = '/'.join(l.name for l in nd.leaves())
+        paths = {nd: impl.node_path(nd) for nd in tx.tree.traverse()}
+        for nd, p in paths.items():
+            if p in want_names and nd.name != want_names[p]:
+                bad.append('node name %r, expected %r' % (nd.name, want_names[p]))
+            if nd.depth != len(p):
+                bad.append('depth of %r is %r, its distance from the root is %d' % (nd.name, nd.depth, len(p)))
+        # path query
+        byp = {p: nd for nd, p in paths.items()}
+        for nd, p in paths.items():
+            for k in range(1, len(p) + 1):
+                anc = byp[p[k:]]
+                got = [paths[x] for x in tx.get_path_up(nd, anc)]
+                want = [p[j:] for j in range(1, k)]
+                if got != want:
+                    bad.append('get_path_up(%r, %r) is not the nodes strictly between, youngest first' % (nd.name, anc.name))
+        # stored newick re-parses to the same named topology (names are non-empty in the property's domain)
+        try:
+            if any(nd.name == '' for nd in paths):
+                raise StopIteration
+            back = ete3.Tree(tx.tree_str, format=1, quoted_node_names=True)
+            if ete_tree_sx(back) != ete_tree_sx(tx.tree):
+                bad.append('tree_str does not re-parse to the same named topology')
+        except StopIteration:
+            ctx.counts['empty_names_outside_domain'] += 1
+        except Exception as e:  # noqa
+            bad.append('tree_str does not re-parse: %s' % type(e).__name__)
+        if bad:
+            ctx.violation(bad[0], dict(payload, failures=bad[:10]))
+            continue
+        # correspondence: names, depths, text
+        mtree = sx_tree_plain(rep[1])
+        mtext = str(rep[2])
+        mdepth = sorted((P(p), int(dd)) for p, dd in rep[3])
+        idepth = sorted((p, nd.depth) for nd, p in paths.items())
+        if mtree != ete_tree_sx(tx.tree) or mtext != tx.tree_str or mdepth != idepth:
+            ctx.violation('taxonomy layer: model and implementation disagree (names/depth/newick text); props/C18.v no longer tied to the code',
+                          dict(payload, model_text=mtext, impl_text=tx.tree_str), no_input=True)
+        else:
+            ctx.counts['taxonomy_layer_agree'] += 1
+
+
+# ------------------------------------------------------------------ lookups (C15)
+def expect_keyerror(f, *a):
+    try:
+        f(*a)
+    except KeyError:
+        return True
+    except Exception:  # noqa
+        return False
+    return False
+
+
+def check_C15(ctx):
+    Ls = loaded_stream(ctx, ctx.scale(250, 3000))
+    for L in Ls:
+        if L.impl[0] != 'ok':
+            continue
+        ham, d = L.ham, L.dump
+        bad = []
+        ctx.counts['loaded'] += 1
+        xr = {}
+        for g in ham.get_list_extant_genes():
+            ctx.counts['lookups'] += 1
+            if ham.get_gene_by_id(g.unique_id) is not g:
+                bad.append('get_gene_by_id(str) does not return the listed gene')
+            if g.unique_id.isdigit() and str(int(g.unique_id)) == g.unique_id and ham.get_gene_by_id(int(g.unique_id)) is not g:
+                bad.append('get_gene_by_id(int) does not return the listed gene')
+            if ham.get_dict_extant_genes().get(g.unique_id) is not g:
+                bad.append('get_dict_extant_genes disagrees with the listing')
+            for k, v in g.get_dict_xref().items():
+                if k != 'id':
+                    xr.setdefault(v, []).append(g)
+                    if g not in ham.get_genes_by_external_id(v):
+                        bad.append('gene not found under its cross-reference id %s' % v)
+        for v, gs_ in xr.items():
+            if sorted(x.unique_id for x in ham.get_genes_by_external_id(v)) != sorted(x.unique_id for x in gs_):
+                bad.append('external id lookup returns other genes than those carrying the id')
+        for hid, h in ham.get_dict_top_level_hogs().items():
+            if ham.get_hog_by_id(hid) is not h or h not in ham.get_list_top_level_hogs():
+                bad.append('get_hog_by_id does not return the listed top-level HOG')
+            if str(hid).isdigit() and str(int(hid)) == hid and ham.get_hog_by_id(int(hid)) is not h:
+                bad.append('get_hog_by_id(int) does not return the listed top-level HOG')
+            for g in h.get_all_descendant_genes()[:3]:
+                if ham.get_hog_by_gene(g) is not h:
+                    bad.append('get_hog_by_gene does not return the family of the gene')
+        for g in ham.get_list_extant_genomes():
+            if ham.get_extant_genome_by_name(g.name) is not g:
+                bad.append('get_extant_genome_by_name does not return the listed genome')
+            if ham.get_taxon_by_name(g.name) is not g.taxon:
+                bad.append('get_taxon_by_name does not return the genome\'s node')
+        ags = ham.get_list_ancestral_genomes()
+        for g in ags:
+            if ham.get_ancestral_genome_by_name(g.name) is not g:
+                bad.append('get_ancestral_genome_by_name does not return the listed genome')
+            if ham.get_ancestral_genome_by_taxon(g.taxon) is not g:
+                bad.append('get_ancestral_genome_by_taxon does not return the listed genome')
+            if ham.get_taxon_by_name(g.name) is not g.taxon:
+                bad.append('get_taxon_by_name does not return the ancestral genome\'s node')
+        allg = ags + ham.get_list_extant_genomes()
+        for _ in range(10):
+            if len(allg) < 2:
+                break
+            a, b = ctx.rng.sample(allg, 2)
+            mp = gen.mrca_paths([d.path[a.taxon], d.path[b.taxon]])
+            try:
+                got = ham.get_ancestral_genome_by_mrca_of_genome_set({a, b})
+                if d.path[got.taxon] != mp:
+                    bad.append('MRCA lookup returns a genome at another node than the common ancestor')
+            except KeyError:
+                if mp in d.genome_at and mp in d.internals:
+                    bad.append('MRCA lookup raises KeyError although the common ancestor has a genome')
+        # unknown keys
+        if not expect_keyerror(ham.get_gene_by_id, 'no-such-gene') or not expect_keyerror(ham.get_genes_by_external_id, 'no-such-x') \
+                or not expect_keyerror(ham.get_hog_by_id, 'no-such-hog') or not expect_keyerror(ham.get_extant_genome_by_name, 'no-such-sp') \
+                or not expect_keyerror(ham.get_ancestral_genome_by_name, 'no-such-anc') or not expect_keyerror(ham.get_taxon_by_name, 'no-such-node') \
+                or not expect_keyerror(ham.get_hog_by_gene, 'not-a-gene'):
+            bad.append('lookup of an unknown key does not raise KeyError')
+        for nd, p in d.path.items():
+            if p not in d.genome_at and not nd.is_leaf() and not expect_keyerror(ham.get_ancestral_genome_by_taxon, nd):
+                bad.append('lookup by a taxon without genome does not raise KeyError')
+        if bad:
+            ctx.violation(bad[0], {'case': case_json(L.case), 'failures': bad[:10]})
+            continue
+        diffs = compare_parser(L)
+        if diffs and diffs != ['unmodelled']:
+            report_parser_layer(ctx, L, diffs, 'props/C15.v: c15_coherent')
+        else:
+            ctx.counts['parser_layer_agree'] += 1
+    # species trees whose names would make lookups ambiguous
+    reqs, metas = [], []
+    for i in range(ctx.scale(200, 2000)):
+        t = gen.gen_tree(ctx.rng, ctx.rng.randint(3, 10), max_arity=ctx.rng.choice([2, 3, 4]), unary=ctx.rng.random() < 0.3)
+        kind = ctx.rng.choice(['dupleaf', 'dupinternal', 'unnamed_internal', 'clean'])
+        ui = True if kind in ('dupinternal', 'unnamed_internal') else ctx.rng.random() < 0.5
+        ints = [x for x in t.nodes() if x.kids]
+        ls = t.leaves()
+        if kind == 'dupleaf':
+            ls[ctx.rng.randrange(1, len(ls))].name = ls[0].name
+        elif kind == 'dupinternal' and len(ints) >= 2:
+            a, b = ctx.rng.sample(ints, 2)
+            b.name = a.name
+        elif kind == 'unnamed_internal':
+            for x in ints:
+                x.name = ''
+        nw = gen.newick(t, internal=True)
+        reqs.append(['taxonomy', ui, t.sx()])
+        metas.append((t, kind, ui, nw))
+    reps = model.run_requests(reqs)
+    for (t, kind, ui, nw), rep in zip(metas, reps):
+        ctx.counts['ambiguity_trees'] += 1
+        ctx.dist['ambiguity=' + kind] += 1
+        ctx.distinct.add(nw + str(ui))
+        r = impl_taxonomy(nw, ui)
+        payload = {'newick': nw, 'use_internal': ui, 'kind': kind}
+        names = None
+        if r[0] == 'ok':
+            leafn = [n.name for n in r[1].tree.traverse() if n.is_leaf()]
+            intn = [n.name for n in r[1].tree.traverse() if not n.is_leaf()]
+            if len(set(leafn)) != len(leafn) or len(set(intn)) != len(intn):
+                ctx.violation('taxonomy accepted although %s names repeat: a name lookup would pick one of several genomes'
+                              % ('leaf' if len(set(leafn)) != len(leafn) else 'internal'), payload)
+                continue
+        elif r[1] != 'KeyError':
+            ctx.violation('ambiguous tree rejected with %s instead of KeyError' % r[1], payload)
+            continue
+        if (r[0] == 'ok') != (rep[0] == 'ok'):
+            ctx.violation('taxonomy layer: implementation %s, model %s; props/C15.v: c15_unambiguous no longer tied to the code'
+                          % (r[0], rep[0]), payload, no_input=True)
+        else:
+            ctx.counts['taxonomy_layer_agree'] += 1
+
+
+# ------------------------------------------------------------------ annotations (C19)
+def own_annots(it):
+    """annotations written on group `it` itself (also inside its paralogGroups, not inside sub-groups)"""
+    props, scores = {}, {}
+    def go(body):
+        for x in body:
+            if x[0] == 'prop':
+                props[x[1]] = x[2]
+            elif x[0] == 'score':
+                scores[x[1]] = float(x[2])
+            elif x[0] == 'pg':
+                go(x[2])
+    go(it[3])
+    return props, scores
+
+
+def all_groups(items):
+    for it in items:
+        if it[0] == 'og':
+            yield it
+            for x in all_groups(it[3]):
+                yield x
+        elif it[0] == 'pg':
+            for x in all_groups(it[2]):
+                yield x
+
+
+def check_C19(ctx):
+    Ls = loaded_stream(ctx, ctx.scale(400, 5000), p_annot=0.7, p_pg_annot=0.4, p_loft=0.4, p_og_attr=0.2)
+    for L in Ls:
+        if L.impl[0] != 'ok':
+            continue
+        ctx.counts['loaded'] += 1
+        ham, d, c = L.ham, L.dump, L.case
+        bad = []
+        hogs = {}
+        for o, h in d.obj.items():
+            genes = tuple(sorted(g.unique_id for g in h.get_all_descendant_genes()))
+            hogs.setdefault((h.hog_id, genes), []).append(h)
+        claimed = set()
+        for it in all_groups(c.groups):
+            gid = it[1] if it[1] is not None else it[2]
+            props, scores = own_annots(it)
+            refs = tuple(sorted(group_refs(it)))
+            if 'TaxRange' in props and len(refs) == 1 and it[1] is None and it[2] is None:
+                continue   # species-level wrapper: creates no HOG
+            cands = [h for h in hogs.get((gid, refs), []) if not hasattr(h, '_missing_in_xml')]
+            ctx.counts['groups'] += 1
+            if len(cands) != 1:
+                if c.consistent:
+                    bad.append('group %s: %d HOGs carry its id and members' % (gid, len(cands)))
+                continue
+            h = cands[0]
+            claimed.add(id(h))
+            if dict(h._properties) != props:
+                bad.append('group %s: properties %r, file says %r' % (gid, dict(h._properties), props))
+            for k, v in props.items():
+                if h[k] != v:
+                    bad.append('group %s: property %s not retrievable' % (gid, k))
+            for k, v in scores.items():
+                try:
+                    if h.score(k) != v:
+                        bad.append('group %s: score %s is %r, file says %r' % (gid, k, h.score(k), v))
+                except KeyError:
+                    bad.append('group %s: score %s lost' % (gid, k))
+            if getattr(h, 'scores', {}).keys() - scores.keys():
+                bad.append('group %s: carries a score of another group' % gid)
+            if not expect_keyerror(h.score, 'no-such-score') or not expect_keyerror(h.__getitem__, 'no-such-prop'):
+                bad.append('absent annotation does not raise KeyError')
+            rp = repr(h)
+            if gid is not None and ('id=%s' % h.hog_id) not in rp and ('og=%s' % h.og) not in rp:
+                bad.append('display string %s does not show the id' % rp)
+            if ('level=%s' % h.genome.name) not in rp:
+                bad.append('display string %s does not show the level' % rp)
+        for o, h in d.obj.items():
+            if id(h) not in claimed and (h._properties or getattr(h, 'scores', {})):
+                bad.append('HOG %r not created for a group carries annotations' % (h,))
+        decl = {}
+        for sp, gs in c.species:
+            for g in gs:
+                decl[g['id']] = g
+        lofts = {}
+        def collect(items):
+            for x in items:
+                if x[0] == 'g' and x[2] is not None:
+                    lofts[x[1]] = x[2]
+                elif x[0] == 'og':
+                    collect(x[3])
+                elif x[0] == 'pg':
+                    collect(x[2])
+        collect(c.groups)
+        for gid, g in ham.extant_gene_map.items():
+            want = {k: v for k, v in decl.get(gid, {}).items() if k in ('id', 'geneId', 'protId', 'transcriptId')}
+            if g.get_dict_xref() != want:
+                bad.append('gene %s: cross references %r, file says %r' % (gid, g.get_dict_xref(), want))
+            if getattr(g, 'hog_id', None) != lofts.get(gid):
+                bad.append('gene %s: LOFT id %r, file says %r' % (gid, getattr(g, 'hog_id', None), lofts.get(gid)))
+        if bad:
+            ctx.violation(bad[0], {'case': case_json(L.case), 'failures': bad[:10]})
+            continue
+        diffs = compare_parser(L)
+        if diffs == ['unmodelled']:
+            ctx.counts['outside_model_domain'] += 1
+        elif diffs:
+            report_parser_layer(ctx, L, diffs, 'props/C19.v: c19_annotations')
+        else:
+            ctx.counts['parser_layer_agree'] += 1
+
+
+# ------------------------------------------------------------------ faults (C20)
+def positions(items, path=()):
+    """every (path, item) in the group section"""
+    for i, it in enumerate(items):
+        yield path + (i,), it
+        if it[0] == 'og':
+            for x in positions(it[3], path + (i,)):
+                yield x
+        elif it[0] == 'pg':
+            for x in positions(it[2], path + (i,)):
+                yield x
+
+
+def replace_at(items, path, f):
+    """copy of items with the element at path replaced by f(element) (a list of items)"""
+    i = path[0]
+    it = items[i]
+    if len(path) == 1:
+        return items[:i] + f(it) + items[i + 1:]
+    if it[0] == 'og':
+        return items[:i] + [('og', it[1], it[2], replace_at(it[3], path[1:], f))] + items[i + 1:]
+    return items[:i] + [('pg', it[1], replace_at(it[2], path[1:], f))] + items[i + 1:]
+
+
+def faults_of(ctx, c, every):
+    """single-fault corruptions of case c: (kind, position description, new case)"""
+    out = []
+    mk = lambda species, groups, tag: gen.Case(c.tree, species, groups, c.use_internal, None, c.singles, tag, c.stats, False)
+    named = c.named_tree()
+    internal = [n.name for n in named.nodes() if n.kids]
+    sp_idx = list(range(len(c.species)))
+    if not every and len(sp_idx) > 2:
+        sp_idx = ctx.rng.sample(sp_idx, 2)
+    for i in sp_idx:
+        sp = list(c.species)
+        sp[i] = ('NoSuchSpecies', sp[i][1])
+        out.append(('unknown species', i, mk(sp, c.groups, 'fault:species')))
+        sp = list(c.species)
+        sp[i] = (ctx.rng.choice(internal), sp[i][1])
+        out.append(('internal node as species', i, mk(sp, c.groups, 'fault:internal-species')))
+    pos = list(positions(c.groups))
+    refs = [p for p, it in pos if it[0] == 'g']
+    grps = [p for p, it in pos if it[0] in ('og', 'pg')]
+    if not every:
+        refs = ctx.rng.sample(refs, min(3, len(refs)))
+        grps = ctx.rng.sample(grps, min(3, len(grps)))
+    for p in refs:
+        out.append(('dangling geneRef', p, mk(c.species, replace_at(c.groups, p, lambda it: [('g', 'no-such-gene', it[2])]),
+                                             'fault:geneRef')))
+    for p in grps:
+        def empty(it):
+            if it[0] == 'og':
+                return [('og', it[1], it[2], [x for x in it[3] if x[0] in ('prop', 'score')])]
+            return [('pg', it[1], [])]
+        out.append(('empty group', p, mk(c.species, replace_at(c.groups, p, empty), 'fault:empty-group')))
+    return out
+
+
+def check_C20(ctx):
+    base = [c for c in gen_main(ctx, ctx.scale(120, 1200)) if c.consistent and c.groups]
+    every = ctx.tier == 'thorough'
+    faulty = []
+    for c in base:
+        ctx.record_case(c)
+        faulty.extend((k, p, fc, c) for k, p, fc in faults_of(ctx, c, every))
+    Ls = core.load_cases([fc for _, _, fc, _ in faulty])
+    for (kind, pos, fc, c), L in zip(faulty, Ls):
+        ctx.counts['faults'] += 1
+        ctx.dist['fault=' + kind] += 1
+        ctx.distinct.add(fc.xml())
+        if L.impl[0] == 'ok':
+            nested_empty_pg = kind == 'empty group' and empty_pg_after_members(fc.groups, pos)
+            ctx.violation('%s at %s is accepted: the load succeeds' % (kind, list(pos) if isinstance(pos, tuple) else pos),
+                          {'case': case_json(fc), 'fault': kind, 'position': pos, 'original': case_json(c)},
+                          finding_key='F9-empty-paralogGroup-after-members' if nested_empty_pg else None)
+            continue
+        ctx.counts['rejected_' + L.impl[1]] += 1
+        if L.model[0] == 'ok':
+            ctx.violation('parser layer: model loads a document the implementation rejects; props/C20.v: c20_rejects no longer tied to the code',
+                          {'case': case_json(fc), 'fault': kind, 'position': pos, 'layer': 'parser'}, no_input=True)
+        else:
+            ctx.counts['both_reject'] += 1
+    # on a successful load nothing has been dropped
+    Ls = core.load_cases(base)
+    for L in Ls:
+        if L.impl[0] == 'ok':
+            bad = pred_c01(L)
+            if bad:
+                ctx.violation(bad[0], {'case': case_json(L.case), 'failures': bad})
+            else:
+                ctx.counts['loads_without_drop'] += 1
+        else:
+            ctx.violation('consistent input rejected: %s' % L.impl[1], {'case': case_json(L.case)})
+
+
+def empty_pg_after_members(groups, pos):
+    """the emptied group is a paralogGroup nested directly in a paralogGroup that already has a member before it"""
+    items = groups
+    parent = None
+    for i in pos[:-1]:
+        parent = items[i]
+        items = parent[3] if parent[0] == 'og' else parent[2]
+    it = items[pos[-1]]
+    if it[0] != 'pg' or parent is None or parent[0] != 'pg':
+        return False
+    return True
+
+
 def replay(ctx, rp):
     """re-run the property's check on exactly the recorded case"""
     global FORCED
